@@ -1576,6 +1576,10 @@ class Sym:
                 for cb_ in self.fx.closures_of(todo_.pop()):
                     bodies_.append(cb_)
                     todo_.append(cb_["path"])
+            # (a byte sink: it talks to `std::io::Write`; a text helper over `&mut impl fmt::Write` spells its parameter alike)
+            if not any(x.get("k") == "Call" and "fn" in x and x["fn"]["path"].startswith("std::io::Write::")
+                       for bb_ in bodies_ for x in F.walk(bb_["body"])):
+                c = False
             for x in (y for bb_ in bodies_ for y in F.walk(bb_["body"])):
                 if x.get("k") == "Call" and "fn" in x:
                     tgt = self.fx.by_dp.get(x["fn"].get("dp"))
